@@ -35,7 +35,13 @@ bstate_name(int s)
         if (s == ISAL_BLOCK_TYPE0) return "TYPE0";
         if (s == ISAL_BLOCK_CODED) return "CODED";
         if (s == ISAL_CHECKSUM_CHECK) return "CHECKSUM_CHECK";
-        return "WRAPPER";
+        if (s == ISAL_GZIP_EXTRA_LEN) return "GZIP_EXTRA_LEN";
+        if (s == ISAL_GZIP_EXTRA) return "GZIP_EXTRA";
+        if (s == ISAL_GZIP_NAME) return "GZIP_NAME";
+        if (s == ISAL_GZIP_COMMENT) return "GZIP_COMMENT";
+        if (s == ISAL_GZIP_HCRC) return "GZIP_HCRC";
+        if (s == ISAL_ZLIB_DICT) return "ZLIB_DICT";
+        return "?";
 }
 
 static void
@@ -490,6 +496,7 @@ run_inflate(struct scn *s)
         for (i = 0; i < s->cap; i++) {
                 struct call c;
                 uint32_t ai0, to0;
+                int bs0, wf0, pnd0, buf0;
                 unsigned char *o;
                 if (i < s->ncalls)
                         c = s->calls[i];
@@ -515,6 +522,10 @@ run_inflate(struct scn *s)
                 ai0 = st->avail_in;
                 to0 = st->total_out;
                 faulted = 0;
+                bs0 = st->block_state;
+                wf0 = st->wrapper_flag != 0;
+                pnd0 = st->tmp_out_valid != st->tmp_out_processed;
+                buf0 = st->read_in_length > 0 || st->tmp_in_size > 0;
                 VH_TRY { ret = s->api == API_INFLATE ? isal_inflate(st) : isal_inflate_stateless(st); }
                 VH_CATCH { faulted = 1; }
                 VH_DONE;
@@ -532,9 +543,12 @@ run_inflate(struct scn *s)
                         long canary = vh_window_intact(&outr, o, VH_CANARY) ? 0x7fffffff : -1; /* writes inside [0, avail_out) are the callee's right; the end is a guard page */
                         fprintf(out,
                                 "{\"e\":\"Call\",\"scn\":%d,\"seq\":%d,\"ai\":%u,\"ao\":%d,\"ret\":%d,\"c\":%u,\"p\":%u,\"to\":%u,\"dto\":%u,"
-                                "\"bs\":\"%s\",\"ril\":%d,\"ain\":%u,\"fed\":%zu,\"crc_lo\":%u,\"crc_hi\":%u,\"touched_outside\":%d",
+                                "\"bs\":\"%s\",\"ril\":%d,\"ain\":%u,\"fed\":%zu,\"crc_lo\":%u,\"crc_hi\":%u,\"touched_outside\":%d,"
+                                "\"bs0\":\"%s\",\"wf0\":%d,\"pnd0\":%d,\"buf0\":%d,\"wf\":%d,\"pnd\":%d,\"buf\":%d",
                                 s->id, i, ai0, c.ao, ret, cns, prd, st->total_out, st->total_out - to0, bstate_name(st->block_state),
-                                st->read_in_length, st->avail_in, fed, st->crc & 0xffff, st->crc >> 16, canary != 0x7fffffff);
+                                st->read_in_length, st->avail_in, fed, st->crc & 0xffff, st->crc >> 16, canary != 0x7fffffff,
+                                bstate_name(bs0), wf0, pnd0, buf0, st->wrapper_flag != 0, st->tmp_out_valid != st->tmp_out_processed,
+                                st->read_in_length > 0 || st->tmp_in_size > 0);
                         log_bytes("out", o, prd <= (uint32_t) c.ao ? prd : 0);
                         fprintf(out, "}\n");
                         if (ret == ISAL_NEED_DICT && s->dictmode == 2) {
